@@ -61,12 +61,14 @@ def model_check_fast(comp, rep, emit=True, workers=1, timeout=3000, env=None, la
     return res, edges, inits
 
 
-def check(comp, rep, *, trace_cfgs, seeds_per_cfg, cycles, mc_set="quick", big_set=None, big_workers=8,
+def check(comp, rep, *, trace_cfgs, seeds_per_cfg, cycles, mc_set="quick", big_set=None, big_workers=None,
           max_walk=40):
     """MC on Configs selected by VERIF_MC_SET=<mc_set> with edge dump + replay of every edge;
     optional second MC pass on VERIF_MC_SET=<big_set> without edge dump (model only);
     then record / validate traces and run the corrupt-a-field self-test."""
     t = {}
+    if big_workers is None:
+        big_workers = max(1, min(8, int(os.environ.get("VERIF_PROCS", "16"))))
     t0 = time.time()
     res, edges, inits = model_check_fast(comp, rep, emit=True, env={"VERIF_MC_SET": mc_set}, label=mc_set)
     t["mc"] = time.time() - t0
